@@ -53,18 +53,30 @@ macro_rules! buffered {
                 kani::cover!(true, "end");
             }
 
-            /// in batches, partially or fully drained, mixed with single next() calls
+            /// in batches, partially or fully drained, mixed with single next() calls: the stream, the
+            /// number of source frames pulled (one whole buffer exactly when a call finds the buffer
+            /// empty, none otherwise) and the exhaustion flag all follow the ideal prefetch model
             #[kani::proof]
             #[kani::unwind(10)]
             pub fn batches() {
                 let (mut src, start, len, data) = setup();
                 let s0 = src.clone();
                 let mut n = 0usize; // frames delivered so far
+                let mut buffered = len; // model: frames currently held
+                let mut pulled = 0usize; // model: source frames pulled so far
+                let mut partial_then_batch = false;
                 {
                     let mut b = src.by_ref().buffered(Bounded::from_raw_parts(start, len, data));
+                    let mut last_was_partial = false;
                     for _ in 0..3 {
+                        assert!(b.is_exhausted() == (buffered == 0 && pulled >= s0.len), "exhausted <=> buffer empty and source exhausted");
                         let use_batch: bool = kani::any();
                         if use_batch {
+                            partial_then_batch |= last_was_partial;
+                            if buffered == 0 {
+                                buffered = CAP;
+                                pulled += CAP;
+                            }
                             let take: usize = kani::any();
                             kani::assume(take <= CAP + 1);
                             let mut got = 0;
@@ -79,15 +91,25 @@ macro_rules! buffered {
                                     None => break,
                                 }
                             }
-                            assert!(got <= CAP, "a batch never exceeds one buffer");
+                            assert!(got == if take < buffered { take } else { buffered }, "a batch holds exactly the frames that were buffered");
+                            buffered -= got;
+                            last_was_partial = buffered > 0;
                         } else {
+                            if buffered == 0 {
+                                buffered = CAP;
+                                pulled += CAP;
+                            }
                             let f = b.next();
                             assert!(f == ideal(&s0, start, len, &data, n));
                             n += 1;
+                            buffered -= 1;
+                            last_was_partial = false;
                         }
                     }
                 }
-                kani::cover!(n > len + CAP || CAP > 2, "went through a refill");
+                assert!(src.pulls == pulled, "one buffer's worth of source frames each time it runs empty, none otherwise");
+                kani::cover!(CAP == 1 || partial_then_batch, "a partially drained batch followed by another batch");
+                kani::cover!(pulled > 0, "went through a refill");
                 kani::cover!(true, "end");
             }
 
